@@ -277,7 +277,10 @@ impl Spec {
             K::Echo | K::Probe => true,
             K::Const => self.p > 0.0,
             K::Stall => self.kids[0].positive(),
-            K::Sma | K::Ema | K::Alma | K::AlmaCustom | K::Min | K::Max | K::Cumulative => self.kids[0].positive(),
+            // AlmaCustom is deliberately absent: with a small offset / large sigma the steady-state weight is
+            // ~1e-16 of the start-up weights, so in f64 its subtractive weight sum is cancellation residue and
+            // the output of a positive stream need not be positive (numerical accuracy: C16's subject)
+            K::Sma | K::Ema | K::Alma | K::Min | K::Max | K::Cumulative => self.kids[0].positive(),
             K::EmaAlpha => self.kids[0].positive() && self.p > 0.0 && self.p <= (self.n as f64 + 1.0),
             K::Gte => self.p > 0.0 || self.kids[0].positive(),
             K::Lte => self.p > 0.0 && self.kids[0].positive(),
